@@ -36,8 +36,8 @@ def _self_attr_loads(f: Func) -> List[ast.Attribute]:
 from ..util import influences_result as _influences_result
 
 
-def rule_k1(ctx) -> None:
-    ctx.rule("C12-K1", "every caller-settable attribute read in the bypassed region flows into the hashed payload", 4)
+def rule_k1(ctx, rule_id: str = "C12-K1") -> None:
+    ctx.rule(rule_id, "every caller-settable attribute read in the bypassed region flows into the hashed payload", 4)
     prog = ctx.prog
     cls = prog.cls(BAL)
     init = cls.methods["__init__"]
@@ -55,6 +55,30 @@ def rule_k1(ctx) -> None:
             tgt = ctx.res.resolve_callee(c, f)
             if tgt and tgt[0] == "func" and tgt[1] in prog.functions and prog.functions[tgt[1]].cls is cls:
                 work.append(prog.functions[tgt[1]])
+    # what is written to the cache is part of what a later run returns: helpers that shape the
+    # stored payload belong to the region as well
+    payload_reads: List[Tuple[Func, ast.Attribute]] = []
+    for m in cls.methods.values():
+        for c in calls(m):
+            if isinstance(c.func, ast.Attribute) and c.func.attr == "write_cache" and len(c.args) >= 2 and m.params:
+                for x in ast.walk(c.args[1]):
+                    if isinstance(x, ast.Attribute) and isinstance(x.value, ast.Name) and x.value.id == m.params[0]:
+                        par = getattr(x, "_parent", None)
+                        if isinstance(par, ast.Call) and par.func is x:
+                            h = prog.lookup_method(cls, x.attr)
+                            if h is not None:
+                                work2 = [h]
+                                while work2:
+                                    g = work2.pop()
+                                    if g.qualname in region:
+                                        continue
+                                    region.add(g.qualname)
+                                    for cc in calls(g):
+                                        t = ctx.res.resolve_callee(cc, g)
+                                        if t and t[0] == "func" and t[1] in prog.functions and prog.functions[t[1]].cls is cls:
+                                            work2.append(prog.functions[t[1]])
+                        elif isinstance(x.ctx, ast.Load):
+                            payload_reads.append((m, x))
     # private attribute -> constructor parameter it stores
     selfname = init.params[0]
     ctor_params = init.params[1:] + init.kwonly
@@ -75,9 +99,9 @@ def rule_k1(ctx) -> None:
                             public.add(t.attr)
     # reads in the region
     read: Dict[str, str] = {}
-    for q in sorted(region):
-        f = prog.functions[q]
-        for a in _self_attr_loads(f):
+    region_reads = [(prog.functions[q], a) for q in sorted(region) for a in _self_attr_loads(prog.functions[q])] + payload_reads
+    for f, a in region_reads:
+        if True:
             if not _influences_result(a):
                 continue
             if a.attr in stage_args:
@@ -86,10 +110,10 @@ def rule_k1(ctx) -> None:
                         read.setdefault(root if root in ctor_params else x, "%s via stage self.%s" % (f.loc(a), a.attr))
             elif a.attr in source or a.attr in public:
                 roots = source.get(a.attr) or set()
-                if roots:
-                    for r in roots:
-                        read.setdefault(r, "%s as self.%s" % (f.loc(a), a.attr))
-                else:
+                for r in roots:
+                    read.setdefault(r, "%s as self.%s" % (f.loc(a), a.attr))
+                if not roots or (a.attr in public and a.attr not in ctor_params):
+                    # a public attribute can be re-assigned as a whole: it counts itself
                     read.setdefault(a.attr, "%s as self.%s" % (f.loc(a), a.attr))
     cfg_attrs = {k: v for k, v in read.items() if (k in ctor_params or k in public) and k not in EXCLUDED}
     # a column-name parameter whose column is not among the returned columns
@@ -154,23 +178,39 @@ def rule_k1(ctx) -> None:
                             cur, par = par, getattr(par, "_parent", None)
                         if ok_flow:
                             batch_in = True
-    ctx.instance("C12-K1", "hash payload contains the batch rows", trycache.loc(hash_calls[0]), ok=batch_in)
+    ctx.instance(rule_id, "hash payload contains the batch rows", trycache.loc(hash_calls[0]), ok=batch_in)
     if not batch_in:
-        ctx.finding("C12-K1", "Balancer:cache-key:batch", trycache.loc(hash_calls[0]), "the batch rows do not flow into the cache key")
+        ctx.finding(rule_id, "Balancer:cache-key:batch", trycache.loc(hash_calls[0]), "the batch rows do not flow into the cache key")
     hashed_roots: Set[str] = set()
     for a in hashed:
         hashed_roots.add(a)
         hashed_roots |= source.get(a, set())
     for attr, where in sorted(cfg_attrs.items()):
-        ok = attr in hashed_roots
-        ctx.instance("C12-K1", "attribute %s (read at %s) flows into the cache key" % (attr, where), trycache.loc(hash_calls[0]), ok=ok)
+        # a public attribute can be re-assigned after construction: it has to be read
+        # when the key is computed; a snapshot taken in __init__ goes stale
+        ok = attr in hashed if attr in public else attr in hashed_roots
+        ctx.instance(rule_id, "attribute %s (read at %s) flows into the cache key%s" % (attr, where, " at hash time" if attr in public else ""), trycache.loc(hash_calls[0]), ok=ok)
         if not ok:
             ctx.finding(
-                "C12-K1",
+                rule_id,
                 "Balancer:cache-key:%s" % attr,
                 trycache.loc(hash_calls[0]),
                 "configuration %r changes what the pipeline returns (read at %s) but is not part of the cache key, so a cache written under one value is served under another" % (attr, where),
             )
+
+
+COMPRESSED = ("gzip", "bz2", "lzma")
+
+
+def _open_mode(c: ast.Call):
+    """Mode string of an ``open`` / ``gzip.open`` / ``io.open`` ... call, else None."""
+    d = unparse(c.func)
+    if d == "open" or (d.endswith(".open") and d.split(".")[0] in COMPRESSED + ("io", "codecs")):
+        m = c.args[1] if len(c.args) >= 2 else next((k.value for k in c.keywords if k.arg == "mode"), None)
+        if m is None:
+            return "r"
+        return const_str(m)
+    return None
 
 
 def rule_k2(ctx) -> None:
@@ -192,7 +232,7 @@ def rule_k2(ctx) -> None:
     atomic = True
     opens = []
     for c in calls(write):
-        if isinstance(c.func, ast.Name) and c.func.id == "open" and len(c.args) >= 2 and const_str(c.args[1]) and "w" in const_str(c.args[1]):
+        if _open_mode(c) is not None and any(ch in _open_mode(c) for ch in "wxa"):
             opens.append(c)
     ctx.require(opens, "write_cache no longer opens a file for writing")
     why_not = ""
@@ -225,6 +265,7 @@ def rule_k2(ctx) -> None:
     # ---- reads
     tolerant = False
     lcfg = CFG(load.node)
+    compressed_read = any(unparse(c.func).split(".")[0] in COMPRESSED and _open_mode(c) is not None for c in calls(load))
     for c in calls(load):
         if unparse(c.func) in ("json.load", "json.loads"):
             nid = lcfg.node_of(c)
@@ -241,6 +282,8 @@ def rule_k2(ctx) -> None:
                         else:
                             names = {unparse(h.type).split(".")[-1]}
                         covers = bool(names & {"Exception", "BaseException", "ValueError", "JSONDecodeError"})
+                        if compressed_read and not (names & {"Exception", "BaseException"} or {"EOFError", "OSError"} <= names or {"EOFError", "IOError"} <= names):
+                            covers = False  # a truncated compressed stream raises EOFError, not ValueError
                         reraises = any(isinstance(x, ast.Raise) for x in ast.walk(h))
                         miss = any(isinstance(x, ast.Return) and isinstance(x.value, (ast.Dict, ast.Call)) and unparse(x.value) in ("{}", "dict()") for x in ast.walk(h))
                         if covers and not reraises and miss:
